@@ -105,7 +105,16 @@ func ccScenarios(big bool) []*Desc {
 		{Name: "ABS_RX", Type: "cc", CC: 5, CCNeg: 6, Off: 2, OffNeg: 0, Flip: true, Min: -128, Max: 127, Deadzone: 0,
 			Pos: []int32{-128, -65, -64, -1, 0, 1, 63, 64, 65, 127}}}}}
 	acts(d2, LE, "cc_learning")
-	return []*Desc{d, d2}
+	// two sub-handlers of one device deliver the same axis code (e.g. a gamepad's sticks and its motion sensors),
+	// both bidirectional with distinct controller numbers
+	d3 := base("bidir-cc-subhandlers", "interrupt")
+	subPos := []int32{-128, -40, 0, 40, 127}
+	d3.Mappings = []MapDesc{{Name: "M0", Keys: km{K1: {60, 0}},
+		Axes:    []AxisDesc{{Name: "ABS_RX", Type: "cc", CC: 20, CCNeg: 21, Min: -128, Max: 127, Deadzone: 0.1, Pos: subPos}},
+		SubAxes: map[string][]AxisDesc{"Touchpad": {{Name: "ABS_RX", Type: "cc", CC: 22, CCNeg: 23, Off: 1, OffNeg: 1, Min: -128, Max: 127, Deadzone: 0.1, Pos: subPos}}},
+	}}
+	acts(d3, LE, "cc_learning")
+	return []*Desc{d, d2, d3}
 }
 
 // ---------------------------------------------------------------- C08 monitor
@@ -284,8 +293,12 @@ func (m *ccMon) Step(c *StepCtx) {
 		}
 	}
 	// (A) for every bidirectional axis: at most one side non-zero at the receiver
-	for i := range d.Mappings[0].Axes {
-		a := &d.Mappings[0].Axes[i]
+	allAxes := append([]AxisDesc{}, d.Mappings[0].Axes...)
+	for _, sub := range sortedKeys(d.Mappings[0].SubAxes) {
+		allAxes = append(allAxes, d.Mappings[0].SubAxes[sub]...)
+	}
+	for i := range allAxes {
+		a := &allAxes[i]
 		if a.Type != "cc" || a.CCNeg < 0 {
 			continue
 		}
@@ -314,13 +327,13 @@ func (m *ccMon) Step(c *StepCtx) {
 		if len(c.Msgs) > 0 {
 			c.viol("learning-transmits-small-deflection", fmt.Sprintf("CC-learning held, %s is a deflection of %s (<= half travel) but %v was transmitted", c.Ev.String(c.S.Alpha), v.FloatString(3), msgStrings(c.Msgs)))
 		}
-		m.stale[a.Name] = true
+		m.stale[c.Sym.Name] = true
 		return
 	}
 	if len(c.Msgs) == 0 {
 		// nothing transmitted: only legitimate as duplicate suppression, i.e. when the receiver already shows this position
 		// (unless a learning-suppressed move left the receiver behind on purpose)
-		if m.stale[a.Name] {
+		if m.stale[c.Sym.Name] {
 			return
 		}
 		exactM := new(bigRat).Mul(mag, rat(127, 1))
@@ -335,7 +348,7 @@ func (m *ccMon) Step(c *StepCtx) {
 		}
 		return
 	}
-	m.stale[a.Name] = false
+	m.stale[c.Sym.Name] = false
 	// (B) side + value
 	exact := new(bigRat).Mul(mag, rat(127, 1))
 	f, _ := exact.Float64()
